@@ -908,8 +908,8 @@ func (e *Env) runRPC() error {
 				time.Sleep(500 * time.Microsecond)
 			}
 			if len(missing) > 0 {
-				e.Res.Notes = append(e.Res.Notes, fmt.Sprintf("unacked:%v", missing))
 				e.Res.Stall = inspectStall(0)
+				e.Res.Notes = append(e.Res.Notes, fmt.Sprintf("unacked:%v state=%s", missing, e.Res.Stall.Verdict))
 			}
 		case "hold":
 			st.dir.hold(step.Hold)
